@@ -197,6 +197,9 @@ func (c *coreScript) resolve(m *coreMarket, status int, winner int) {
 		_, err := c.ms.Resolve(sdk.WrapSDKContext(ctx), &markettypes.MsgResolve{Creator: c.e.Accts[0].String(), Ticket: tk})
 		return err
 	})
+	if err == nil {
+		m.resolved = true
+	}
 	c.finish(err)
 	if err == nil {
 		noteResolved(c.e, dumpCore(c.e, c.ix), m.uid)
